@@ -71,8 +71,9 @@ func (l *leader) onChangeConfig(t changeConfig) {
 		return
 	}
 
+	latest := l.configs.Latest.Index
 	l.checkConfigActions(t.task, t.newConf)
-	if l.configs.IsCommitted() {
+	if l.configs.Latest.Index == latest {
 		if trace {
 			println(l, "no configActions changed")
 		}
@@ -136,6 +137,10 @@ func (l *leader) checkConfigActions(t *task, config Config) {
 	}
 
 	for _, repl := range l.repls {
+		if l.configs.Latest.Index != config.Index {
+			// an action started above was adopted: continue with it
+			config = l.configs.Latest
+		}
 		l.checkConfigAction(t, config, &repl.status)
 	}
 }
